@@ -71,7 +71,9 @@ def scenario(rng):
     # kinds ... it registers locally"): a Python primitive (inlined in the manifest, no write request) on some ranks, a tensor
     # on the others.  Only with the glob "**" and a key every rank has.
     skew = rng.choice([None, None, None, "prim-on-0", "tensor-on-0"])
-    return {"W": W, "style": style, "keys": keysets, "rng_ranks": rng_ranks, "override": rng.random() < 0.35, "mem": mem, "hosts": hosts, "skew": skew,
+    # an explicit process group handed to take / async_take, and restore through the Snapshot object those calls return
+    explicit_pg = rng.random() < 0.5
+    return {"W": W, "style": style, "keys": keysets, "rng_ranks": rng_ranks, "override": rng.random() < 0.35, "mem": mem, "hosts": hosts, "skew": skew, "explicit_pg": explicit_pg,
             "kinds": {k: rng.choice(["tensor", "object", "prim", "mixed"]) for k in allkeys},
             "restore_shift": rng.choice([0, 0, 1]),
             "replicated": (["**"] if skew else rng.choice([None, None, ["**"], ["a/**"], ["b/t", "zz_rng/**"]]))}
@@ -105,18 +107,33 @@ def make_state(sc, r, fill, shift=0):
     return st
 
 
+class _GroupTag:
+    """stands for a torch.distributed.ProcessGroup in the simulated world (PGWrapper only stores and forwards it)"""
+    def __repr__(self):
+        return "<the group given by the application>"
+
+
+_HANDLES = {}        # path -> per-rank Snapshot objects returned by take / async_take().wait()
+_GROUP = _GroupTag()
+
+
 def run_api(sc, api, path):
     from torchsnapshot import Snapshot
     world = World(sc["W"])
+    pg = _GROUP if sc.get("explicit_pg") else None
 
     def fn(r):
         if api == "take":
-            Snapshot.take(path, make_state(sc, r, True), replicated=sc.get("replicated"))
+            _HANDLES.setdefault(path, {})[r] = Snapshot.take(path, make_state(sc, r, True), replicated=sc.get("replicated"), pg=pg)
         elif api == "async_take":
-            Snapshot.async_take(path, make_state(sc, r, True), replicated=sc.get("replicated")).wait()
+            _HANDLES.setdefault(path, {})[r] = Snapshot.async_take(path, make_state(sc, r, True), replicated=sc.get("replicated"), pg=pg).wait()
         else:
             st = make_state(sc, r, False, shift=0)
-            Snapshot(path).restore(st)
+            # restore through the object that take()/wait() returned on this rank when there is one (it must carry the
+            # application's process group), else through a fresh Snapshot
+            src = sc.get("restore_from") or path
+            handle = _HANDLES.get(src, {}).get(r) if sc.get("explicit_pg") else None
+            (handle if handle is not None else Snapshot(path, pg=pg)).restore(st)
             exp = make_state(sc, r, True)
             ok = True
             for k in st:
@@ -192,8 +209,9 @@ def correspond(ctx: Ctx) -> Result:
         sc = corpus[i] if i < len(corpus) else scenario(rng)
         root = ctx.scratch("c12")
         path = os.path.join(root, "snap")
-        for api in ("take", "async_take", "restore"):
-            p = path if api != "async_take" else path + "_async"
+        for label in ("take", "async_take", "restore", "restore(async handle)"):
+            api = "restore" if label.startswith("restore") else label
+            p = path + "_async" if label in ("async_take", "restore(async handle)") else path
             world = run_api(sc, api, p)
             differ = len({tuple(k) for k in sc["keys"]}) > 1 or 0 < len(sc["rng_ranks"]) < sc["W"]
             res.case({"api": api, "W": sc["W"], "style": sc["style"], "keys": sc["keys"], "rng_ranks": sc["rng_ranks"], "override": sc["override"], "replicated": sc.get("replicated")},
@@ -204,7 +222,13 @@ def correspond(ctx: Ctx) -> Result:
             errs = [e for e in world.errors if e is not None]
             mism = [e for e in errs if isinstance(e, CollectiveMismatch)]
             dead = [e for e in errs if isinstance(e, Deadlock)]
-            res.count("value_kind_skew", str(sc.get("skew")))
+            res.count("value_kind_skew", str(sc.get("skew"))); res.count("explicit_pg", bool(sc.get("explicit_pg")))
+            if sc.get("explicit_pg"):
+                other = sorted({repr(g) for r in range(sc["W"]) for g in world.coll_pg[r] if g is not _GROUP})
+                if other:
+                    res.failures.append(Failure(f"C12:{api}:collectives-on-another-group",
+                                                f"{api}: the application passed its own process group, yet collectives were issued on {other} "
+                                                f"(a restore goes through the Snapshot object returned by {'async_take().wait()' if p.endswith('_async') else 'take()'}) keys={sc['keys']}", replay))
             if (sc.get("skew") == "tensor-on-0" and isinstance(world.errors[0], KeyError)
                     and all(isinstance(e, Deadlock) for e in world.errors[1:])):
                 res.failures.append(Failure("C12:replicated-path-kinds-differ:rank0-KeyError-peers-blocked",
